@@ -297,10 +297,18 @@ def _analyse(traj, sites, res=None):
         out['jumps'] = []
     out['tmatrix'] = np.asarray(tr.matrix())
     # occupancy bookkeeping: per site, and aggregated per site label (label-keyed, so independent of the order of the sites)
-    out['occupancy'] = np.array([float(s_.species.num_atoms) for s_ in tr.occupancy()])
-    for nm_, d_ in (('occupancy_by_site_type', tr.occupancy_by_site_type()), ('atom_locations', tr.atom_locations())):
-        out[nm_ + ' labels'] = sorted(d_)
-        out[nm_] = np.array([float(d_[k_]) for k_ in sorted(d_)])
+    try:
+        out['occupancy'] = np.array([float(s_.species.num_atoms) for s_ in tr.occupancy()])
+        for nm_, d_ in (('occupancy_by_site_type', tr.occupancy_by_site_type()), ('atom_locations', tr.atom_locations())):
+            out[nm_ + ' labels'] = sorted(d_)
+            out[nm_] = np.array([float(d_[k_]) for k_ in sorted(d_)])
+    except ValueError as e_:
+        # a site that holds more than one atom-frame per frame on average cannot be written as a pymatgen occupancy (pymatgen rejects
+        # occupancies above one): not part of this property - the occupancy outputs are left out for such a system, in every representation
+        if 'occupancies sum to more than 1' not in str(e_):
+            raise
+        for k_ in [k_ for k_ in out if k_.startswith('occupancy') or k_.startswith('atom_locations')]:
+            del out[k_]
     # per-label radii (labels are interleaved in the site list and get permuted with the sites)
     tr_lab = traj.transitions_between_sites(sites, 'Li', site_radius={'A': 1.0, 'B': 0.9, 'C': 1.1})
     out['states(per-label radii)'] = np.asarray(tr_lab.states)
@@ -405,7 +413,10 @@ def replay_metamorphic(inputs):
         same(sorted((r[0], rs(r[1]), rs(r[2]), r[3], r[4]) for r in base[key]), o.get(key), f'site permutation: {key} are not the relabelled jumps')
     if 'matrix' in base and 'matrix' in o:
         same(base['matrix'][np.ix_(sg, sg)], o['matrix'], 'site permutation: jump matrix is not the permuted matrix')
-    same(base['occupancy'][sg], o['occupancy'], 'site permutation: site occupancies are not the permuted occupancies')
+    if 'occupancy' in base and 'occupancy' in o:
+        same(base['occupancy'][sg], o['occupancy'], 'site permutation: site occupancies are not the permuted occupancies')
+    elif ('occupancy' in base) != ('occupancy' in o):
+        bad.append('site permutation: site occupancies can be computed in only one of the two orderings')
     # transition matrix: outside the row / column of the last site of either ordering (into which Transitions.matrix folds the no-site events -
     # known finding C05-nosite-fold)
     keep_ = [j_ for j_ in range(len(sg)) if j_ != len(sg) - 1 and sg[j_] != len(sg) - 1]
